@@ -205,6 +205,18 @@ def _diff_case(case, out):
         ref[i_ref] = np.array(rows)
         if not np.any([np.any(jac_ref(o, i_ref)) for o in prog["outputs"]]):
             unreachable = True
+    # structurally unreachable inputs (no differentiable path from any output): exact zeros are required for those only;
+    # a reachable input whose derivative happens to vanish may carry rounding noise
+    out_anc = set()
+    for o in prog["outputs"]:
+        out_anc |= _ancestors(prog, tuple(o)) | {_node_id(tuple(o))}
+    no_path = set()
+    for i_ref in inputs:
+        if i_ref[0] == "l":
+            if i_ref[1] not in P.leaf_deps(prog, prog["outputs"]):
+                no_path.add(i_ref)
+        elif _node_id(i_ref) not in out_anc:
+            no_path.add(i_ref)
     if unreachable:
         out.cls("unreachable-input")
     if case["kind"] == "grad":
@@ -234,9 +246,8 @@ def _diff_case(case, out):
             return
         out.within(float(np.abs(got.double().reshape(B, -1).numpy() - ref[i_ref]).max(initial=0.0)), tol * cmax, "jac-value",
                    f"input {i_ref}: {got.tolist()} vs reference rows {ref[i_ref].tolist()}")
-        if not np.any(ref[i_ref]) and unreachable:
-            out.check(bool((got == 0).all()) or np.any([np.any(jac_ref(o, i_ref)) for o in prog["outputs"]]),
-                      "jac-unreachable-not-zero", f"input {i_ref}: {got.tolist()}")
+        if i_ref in no_path:
+            out.check(bool((got == 0).all()), "jac-unreachable-not-zero", f"input {i_ref}: {got.tolist()}")
     # Jac vs stacking Grad row by row (bitwise when chunk size is 1)
     for r in range(B):
         res = Grad(outs, ins, retain_graph=True)(Gradients({o: c[r] for o, c in zip(outs, cots)}))
